@@ -165,6 +165,7 @@ func genHashScenario(r *kernel.RNG, tier string, i int) interface{} {
 	if r.Chance(0.15) {
 		nk = r.Range(9, 18) // wide hashes: every bucket mechanism with many neighbours
 	}
+	big := false
 	sc.Keys = genHashKeys(r, nk)
 	sc.Ctor = r.Pick([]string{"hash", "hash", "curly", "empty", "msgmap"})
 	if sc.Ctor != "empty" {
@@ -177,6 +178,19 @@ func genHashScenario(r *kernel.RNG, tier string, i int) interface{} {
 			}
 		}
 	}
+	if r.Chance(0.012) {
+		// big hashes: sizes on both sides of the powers of two where an implementation may switch representation or
+		// batch its bookkeeping; the ballast keys are keys like any other (the operations below land on them)
+		if sc.Ctor == "empty" {
+			sc.Ctor = "hash"
+		}
+		nb := r.PickInt([]int{40, 70, 130, 250, 260, 300})
+		for b := 0; b < nb; b++ {
+			sc.Keys = append(sc.Keys, hkey{"int", strconv.Itoa(2000000 + b)})
+			sc.Init = append(sc.Init, len(sc.Keys)-1)
+		}
+		big = true
+	}
 	if len(sc.Init) > 0 && r.Chance(0.25) {
 		// the same key given twice to the constructor: it keeps its first place and takes the later value
 		sc.Init = append(sc.Init, sc.Init[r.Intn(len(sc.Init))])
@@ -184,6 +198,9 @@ func genHashScenario(r *kernel.RNG, tier string, i int) interface{} {
 	n := r.Range(1, 40)
 	if r.Chance(0.5) {
 		n = r.Range(1, 10)
+	}
+	if big {
+		n = r.Range(1, 5)
 	}
 	// swarm: per-scenario op weights
 	w := []int{r.Range(1, 6), r.Range(0, 6), r.Range(0, 3), r.Range(0, 3), r.Range(0, 2), 1, r.Range(0, 2), r.Range(0, 2)}
